@@ -283,6 +283,16 @@ def raw_seq(rng: random.Random, pool: list, maxlen: int = 6) -> list:
 def agg_spec(rng: random.Random, name: str, maxlen: int = 8) -> dict:
     cls = rng.choice(["items", "items", "items", "exact", "inexact", "unorderable", "nan", "touchy"])
     spec: dict = {"tool": name, "srcs": [], "fns": [], "params": {}}
+    if name in ("min", "max", "sorted", "nlargest", "nsmallest") and rng.random() < 0.08:
+        # values ordered by ``<`` alone (no __eq__): ties are "neither smaller nor equal"; first-wins / stability
+        spec["raw"] = True
+        spec["srcs"] = [[["Lt", rng.randrange(3), i] for i in range(rng.randint(0, min(maxlen, 6)))]]
+        spec["fns"] = [rng.choice([None, None, "ident"])]
+        if name == "sorted" and rng.random() < 0.5:
+            spec["params"]["reverse"] = True
+        if name in ("nlargest", "nsmallest"):
+            spec["params"]["n"] = rng.randint(0, len(spec["srcs"][0]) + 1)
+        return spec
     if cls == "touchy":
         if name in ("min", "max", "sorted", "nlargest", "nsmallest"):
             # items whose comparison fails with ValueError / KeyError / ...: the aggregation fails the same way
@@ -405,12 +415,16 @@ def agg_spec(rng: random.Random, name: str, maxlen: int = 8) -> dict:
         return spec
     if name in ("nlargest", "nsmallest"):
         if cls in ("items", "inexact", "exact", "nan"):
+            # (no NaN values here: with keys that are not totally ordered WHICH n items are "the smallest" is an
+            # accident of the algorithm - heapq sorts when n >= len and uses a heap otherwise - not a result to match)
             spec["srcs"] = [keys_seq(rng, maxlen)]
             spec["fns"] = [rng.choice(KEYS)]
         else:
+            # mixed types that make the comparison fail: the aggregation fails like its counterpart
             spec["raw"] = True
-            spec["srcs"] = [raw_seq(rng, RAW_UNORDERABLE, maxlen if rng.random() < 0.7 else 1)]
-            spec["fns"] = [rng.choice([None, None, "neg", "half", "failkey"])]
+            pool = RAW_UNORDERABLE
+            spec["srcs"] = [raw_seq(rng, pool, maxlen if rng.random() < 0.8 else 1)]
+            spec["fns"] = [rng.choice([None, None, None, None, "ident", "ident", "neg", "half", "failkey"])]
         spec["params"]["n"] = rng.randint(0, len(spec["srcs"][0]) + 2)
         return spec
     raise ValueError(name)
